@@ -3,6 +3,7 @@ package main
 import (
 	"fmt"
 	"go/token"
+	"go/types"
 	"sort"
 	"strings"
 
@@ -588,6 +589,45 @@ func ruleENG14(c *Ctx) {
 		res := unspill(ret.Results[0])
 		if !isCandidateSlice(res) {
 			why = "the returned slice is not the candidate slice"
+			continue
+		}
+		resliced := false
+		// follow only merges: the slice variable's versions up to the appends that produced them
+		seenPhi := map[ssa.Value]bool{}
+		var walk func(v ssa.Value)
+		walk = func(v ssa.Value) {
+			if seenPhi[v] {
+				return
+			}
+			seenPhi[v] = true
+			switch x := v.(type) {
+			case *ssa.Slice:
+				if _, isSlice := x.X.Type().Underlying().(*types.Slice); isSlice {
+					resliced = true // a slice of a slice; make([]T, 0) is a slice of a fresh array
+				}
+			case *ssa.Phi:
+				for _, e := range x.Edges {
+					walk(unspill(e))
+				}
+			case *ssa.Call:
+				if appendedElems(x) != nil && len(x.Call.Args) > 0 {
+					walk(unspill(x.Call.Args[0]))
+				}
+			}
+		}
+		walk(res)
+		// the list lives in a cell when the sort closure captures it: look at everything stored there
+		if ld, ok := ret.Results[0].(*ssa.UnOp); ok && ld.Op == token.MUL {
+			if al, ok := ld.X.(*ssa.Alloc); ok {
+				for _, r := range *al.Referrers() {
+					if st, ok := r.(*ssa.Store); ok && st.Addr == ssa.Value(al) {
+						walk(st.Val)
+					}
+				}
+			}
+		}
+		if resliced {
+			why = "the returned slice is a sub-slice of the candidate list: matching rules are cut off"
 			continue
 		}
 		for _, sc := range scs {
